@@ -25,7 +25,8 @@ EXPLANATION = (
     'reference node resolved under two contexts, carry nothing over. (C03.9) a reference workbook with three sheets (one '
     'title a prefix of another, one with an apostrophe), defined names, $-variants, ranges with empty cells and cross-sheet'
     ' chains, loaded through the reader path and evaluated as written in both orders against hand-computed values; a second'
-    ' workbook with the names bound elsewhere in the same process.')
+    ' workbook with the names bound elsewhere in the same process.'
+    ' (C03.5) also addresses that name their sheet in the dict reader, sheet titles that are prefixes of one another; (C03.9) the names history repeated on an extracted model; two workbooks loaded one after the other in one process (hidden sheets, ignore_hidden, ignore lists).')
 NOT_DECIDED = 'range arithmetic of openpyxl (range_boundaries), values of the cells'
 TRUSTED = ['openpyxl.utils.cell.range_boundaries / get_column_letter behave as documented', 'workbook scenarios: pandas storage of range arrays as row-major rows, numpy on Python numbers (IEEE results, 64-bit integer wrap), dateutil.parser.parse rejecting texts that are no dates, openpyxl address arithmetic, inspect.signature built from the FunctionDef', 'modelled openpyxl workbook (sheetnames, _cells, defined_names)']
 
